@@ -13,7 +13,7 @@ import (
 
 /* C19: Accuracy — BFS over Accumulate/Result histories, state = (total, correct) */
 
-var c19Labels = []float64{0, 1, 2.5, -1}
+var c19Labels = []float64{0, 1, 2.5, -1, 0.5, 0.5000001}
 
 type c19Ev struct {
 	Kind string    // "batch", "invalid", "result"
